@@ -109,13 +109,13 @@ H = {
         fn=["PrivateKey::ots_sign", "coef", "checksum"],
         desc="ots_sign == RFC 8554 Algorithm 3 with one SYMBOLIC Winternitz coefficient (Q = 01..01 except Q[5] "
              "symbolic, hence symbolic checksum digits): chains of symbolic length",
-        bounds="Q[5] and both checksum coefficients symbolic, others 1", quick=(), thorough=("s256m32", "shakem24"),
-        cap=(0, 2300), weight=900),
+        bounds="Q[5] and both checksum coefficients symbolic, others 1", quick=(), thorough=(),
+        cap=(0, 2300), weight=900),   # not posed: CBMC ends with an internal error after 240-520 s (run with --only)
     "verif_lms_verify_ref_q1": dict(
         fn=["PublicKey::verify", "PublicKey::ots_verify", "coef", "checksum"],
         desc="verify == RFC 8554 Algorithms 6/6a/4b with one SYMBOLIC Winternitz coefficient (Q = FE..FE except Q[5])",
-        bounds="Q[5] and both checksum coefficients symbolic, others 254", quick=(), thorough=("s256m32", "shakem24"),
-        cap=(0, 2300), weight=1000),
+        bounds="Q[5] and both checksum coefficients symbolic, others 254", quick=(), thorough=(),
+        cap=(0, 2300), weight=1000),  # not posed: no answer within 2300 s (run with --only)
     "verif_lms_chain_fast_eq": dict(
         fn=["(machinery) ref_chain_fast == ref_chain under the stand-in hash"],
         desc="the closed form that replaces the reference Winternitz chain under Kani equals the reference chain run "
@@ -128,9 +128,9 @@ H = {
 }
 
 STUBS = {
-    "Hn -> hn_00 / hn_ff / hn_lo / hn_hi": "deterministic stand-in. Chain step and x[i] derivation: input carried "
+    "Hn -> hn_00 / hn_ff": "deterministic stand-in. Chain step and x[i] derivation: input carried "
         "over, byte 0 += (j|1), byte 1 ^= digest(I,q,i) on the steps j in {0,254,255}. Message hash: Q constant "
-        "(00..00 for signing, FF..FF for verification; thorough tier: one symbolic byte). Functional consistency "
+        "(00..00 for signing, FF..FF for verification). Functional consistency "
         "only; collision resistance is outside the claim (C17 decides that the real functions are SHA-256/SHAKE256)",
     "Hm -> hm_lean, Hnx -> hnx_lean": "deterministic, order-sensitive lane mixers over all inputs",
     "PrivateKey::ots_sign -> ots_sign_pool (sign_path_*, sign_state_*)": "draws C from the RNG like the real function "
@@ -247,8 +247,8 @@ def run(tier, only=None):
                   functions_encoded=sorted(set(fn for o in obs for fn in o.functions)),
                   bounds={"parameter sets": [s[2] for s in SETS], "message": "2-3 symbolic bytes",
                           "unwind": "256 = 2^w (Winternitz chain); 66 = 2^(h+1)+2; 1126 = ots_siglen+2; 3 (reject_shallow)",
-                          "winternitz coefficients": "fixed by the message-hash stand-in (00..00 / FF..FF); thorough "
-                                                     "tier: one symbolic coefficient plus its checksum digits"},
+                          "winternitz coefficients": "fixed by the message-hash stand-in (00..00 signing / FF..FF "
+                                                     "verifying)"},
                   stubs=STUBS,
                   assumptions=["Kani 0.68 / CBMC 6.11 semantics of MIR; CBMC pointer/overflow instrumentation and "
                                "assertion-reachability checks off (safe Rust; Rust's own panics stay assertions)",
@@ -260,7 +260,11 @@ def run(tier, only=None):
                   outside=["collision / preimage resistance (rejection of other messages and of altered hash-chain "
                            "bytes rests on it: verify is shown equal to the RFC predicate, not unforgeable)",
                            "compute_tree / generate (277k hash calls); the tree is arbitrary or honest-on-the-path",
-                           "all Winternitz coefficients symbolic at once (CBMC: > 50M statements)",
+                           "symbolic Winternitz coefficients inside whole signatures: the chain lengths are fixed by the "
+                           "message-hash stand-in to the vectors 00..00 (sign) and FF..FF (verify); one symbolic "
+                           "coefficient (harnesses *_q1) gives a CBMC internal error after 240-520 s resp. no answer in "
+                           "2300 s, all symbolic > 50M statements; coef/checksum themselves are decided for ALL Q and "
+                           "a chain entered at a symbolic point is decided for the reference (chainsym_fast_eq)",
                            "w in {1,2,4}: no such parameter set is instantiated",
                            "in this tier not posed (thorough only): " + ", ".join(notposed)],
                   machinery_error=merr)
